@@ -95,3 +95,37 @@ def project_tracts(tracts, doc, ws_insensitive=False):
                     "sec": int(t.sec) if isinstance(t.sec, str) and t.sec.isdigit() else -1,
                     "block": by_text.get(desc, -1)})
     return out
+
+
+_PRETTY_TR = re.compile(r"T(\d{1,3})([NS])-R(\d{1,3})([EW])")
+_PRETTY_SEC = re.compile(r"Sec (\d{1,3}): ?(.*)", re.S)
+
+
+def lex_pretty(text, doc):
+    """TractList.pretty_desc() read line by line into the lines of spec/PlssDoc.tla :: PrettyLines
+    ([k, tr, sec, block]); continuation lines of a multi-line description are folded back (their justification
+    removed); anything unexpected is a line of kind "?"."""
+    tr_by_text = {R.tr_canon(g["tr"]): g["tr"] for g in doc["groups"]}
+    by_text = {norm_ws(t): b for b, t in doc["blocks"].items()}
+    items = []
+    for line in (text or "").split("\n"):
+        m = _PRETTY_TR.fullmatch(line)
+        if m:
+            items.append(["tr", line, None])
+        elif _PRETTY_SEC.fullmatch(line):
+            m = _PRETTY_SEC.fullmatch(line)
+            items.append(["sec", int(m.group(1)), m.group(2)])
+        elif items and items[-1][0] == "sec" and line.startswith(" "):
+            items[-1][2] += "\n" + line
+        else:
+            items.append(["?", line, None])
+    out, cur = [], 0
+    for k, a, b in items:
+        if k == "tr":
+            cur = tr_by_text.get(a, -1)
+            out.append({"k": "tr", "tr": cur, "sec": 0, "block": 0})
+        elif k == "sec":
+            out.append({"k": "sec", "tr": cur, "sec": a, "block": by_text.get(norm_ws(b), -1)})
+        else:
+            out.append({"k": "?", "tr": -1, "sec": -1, "block": -1})
+    return out
